@@ -188,6 +188,7 @@ def check_C17(rep, known):
     import splinem
     rec = {'sc': {'kind': 'optima'}}
     engine.process_results(rep, [rec], [{'results': splinem.optima(), 'error': None}], [r'C17\.'], known)
+    engine.process_results(rep, [{'sc': {'kind': 'signal-order'}}], [{'results': splinem.signals_order(), 'error': None}], [r'C17\.'], known)
 
 
 def trace_job(rep, known):
@@ -332,7 +333,7 @@ def check_C13(rep, known):
     recs, st = tlc.generate('ScenStages', 'ScenStages.cfg', 'C12', rep.tier, rep.seed, parts=16)
     recs = [r for r in recs if r['sc']['reset']]
     outs = engine.pool_map('stages', 'replay', recs)
-    engine.process_results(rep, recs, outs, [r'C12\.(h|a|c)'], known)
+    engine.process_results(rep, recs, outs, [r'C12\.(h|a|c|build)'], known)
 
 
 def check_C09(rep, known):
@@ -378,6 +379,8 @@ def check_C18(rep, known):
     life_job(rep, [r'C18\.', r'C13\.d:outcome@\d+:save'], known)
     import splinem
     engine.process_results(rep, [{'sc': {'kind': 'spline-saveload'}}], [{'results': splinem.saveload(), 'error': None}], [r'C18\.'], known)
+    import stages as _st
+    engine.process_results(rep, [{'sc': {'kind': 'nested-saveload'}}], [{'results': _st.nested_saveload(), 'error': None}], [r'C18\.'], known)
     # the exact families replayed through save/load: the *loaded* object must conform to the same predictions
     # (all variable kinds, free time, DAE + collocation, scaling, guesses, parameter kinds)
     import random
